@@ -76,7 +76,11 @@ def _member(t1, t2x, t2y, w, kp, lv):
   root[fdl.VARARGS:] = [[LONG, lv + 5], shared]
   bare = fdl.Config(fam.g4)          # no argument values at all, only a tag on an unset parameter
   fdl.add_tag(bare, 'x', T1)
-  root.k = {'s': shared, 'p': fdl.Partial(fam.g2), 't': (1, 'a', (2, 3)), 'tv': T1.new(lv + 6), 'bare': [bare, []]}
+  # two more nodes whose only arguments are explicitly set to the parameter default
+  dflt = [fdl.Config(fam.g5, y=None), fdl.Config(typed, c=0.5, a=1)]
+  n2.c = 0.5
+  root.k = {'s': shared, 'p': fdl.Partial(fam.g2), 't': (1, 'a', (2, 3)), 'tv': T1.new(lv + 6), 'bare': [bare, []],
+            'dflt': dflt}
   fdl.add_tag(root, 0, T0)
   fdl.add_tag(root, 1, T1)          # value-less positional-only argument
   fdl.add_tag(root, 'k', T0)
@@ -96,7 +100,9 @@ def _member_kw(t1, t2x, t2y, w, kp, lv):
   root = fdl.Config(fam.g3, x=[lv + 4, n1, n2][t2x + 1], y=[shared, n2, n0][t2y + 1])
   bare = fdl.Config(fam.g4)
   fdl.add_tag(bare, 'x', T1)
-  root.z = {'s': shared, 'l': [LONG, lv + 5], 't': (1, 'a', (2, 3)), 'n1': n1, 'bare': [bare, []]}
+  dflt = [fdl.Config(fam.g5, y=None), fdl.Config(typed, c=0.5, a=1)]
+  n2.c = 0.5
+  root.z = {'s': shared, 'l': [LONG, lv + 5], 't': (1, 'a', (2, 3)), 'n1': n1, 'bare': [bare, []], 'dflt': dflt}
   fdl.add_tag(root, 'x', T0)
   fdl.add_tag(n1, 'z', T1)
   fdl.add_tag(n0, 'extra', T0)
